@@ -275,7 +275,39 @@ def validate_collect(spec, cfg, files, scratch, timeout=3000, heap="3g", max_bad
     results = validate_traces(spec, cfg, files, scratch, timeout=timeout, heap=heap)
     total = 0
     bad = []
-    for f, acc, r in results:
+    # An evaluation error while judging an event (TLC's 32-bit integers overflow when a recorded value is far outside the
+    # exact domain the expectations live in) is isolated: the event is re-judged alone; if the error repeats, the event
+    # is counted as rejected ("unjudgeable: magnitudes outside the domain of the specification") and the rest of the batch
+    # is validated without it.  Any other TLC failure is a broken check.
+    queue = list(results)
+    rounds = 0
+    while queue:
+        f, acc, r = queue.pop(0)
+        if not acc and "Overflow when computing" in (r.error or "") + r.out and rounds < 60:
+            rounds += 1
+            states = [int(x) for x in re.findall(r"^l = (\d+)$", r.out, re.M)]
+            k = max(states) if states else 1                      # the event being judged when the evaluation failed
+            with open(f) as fh:
+                lines = fh.readlines()
+            if 1 <= k <= len(lines):
+                one = scratch.path("ovf-%d-%s" % (rounds, os.path.basename(f)))
+                with open(one, "w") as fo:
+                    fo.write(lines[k - 1])
+                (f1, acc1, r1), = validate_traces(spec, cfg, [one], scratch, timeout=timeout, heap=heap)
+                if not acc1 and "Overflow when computing" in (r1.error or "") + r1.out:
+                    try:
+                        ev = json.loads(lines[k - 1])
+                    except ValueError:
+                        ev = {"raw": lines[k - 1][:500]}
+                    if isinstance(ev, dict):
+                        ev = dict(ev, _unjudgeable="evaluating the specification on this event overflows TLC's integers: a recorded value is far outside the exact domain of the expectations")
+                    bad.append((f, k, ev))
+                    rest = scratch.path("rest-%d-%s" % (rounds, os.path.basename(f)))
+                    with open(rest, "w") as fo:
+                        fo.writelines(lines[:k - 1] + lines[k:])
+                    if len(lines) > 1:
+                        queue += validate_traces(spec, cfg, [rest], scratch, timeout=timeout, heap=heap)
+                    continue
         if not acc:
             raise Broken("trace validation failed to run on %s: %s\n%s" % (f, r.error or r.violation, r.out[-1500:]))
         idx = sorted(set(int(x) for x in re.findall(r'"TRACE-BAD", (\d+)', r.out)))
